@@ -19,7 +19,8 @@ MIRRORS = {
     "C03": [("c04", {"C04.ts_max": "C03.overlap"}, ()), ("c05", {"C05.typestate": ("C03.counter", "gate:conn")}, ())],
     # ... and for exactly the messages the tiling assigns to it
     # the expected delay that enters the phases is the one given (0.0 included), by default the 0.99-quantile
-    "C04": [("c03", {"C03.tiling": "C04.ts_max"}, ()), ("c15", {"C15.default": "C04.phase"}, ())],
+    # ... and the delays that enter the law are samples of the configured distributions (what warmup binds the samplers to)
+    "C04": [("c03", {"C03.tiling": "C04.ts_max"}, ()), ("c15", {"C15.default": "C04.phase"}, ()), ("c16", {"C16.bind": "C04.end"}, ())],
     # generated delays are the clipped samples of the configured distributions
     "C12": [("c15", {"C15.nonneg": ("C12.scan", "StaticDist.sample")}, ())],
     # a delay set between episodes is what the next episode simulates: no pre-drawn sample of the old distribution survives a reset
